@@ -183,13 +183,20 @@ fn offsets_strategy(p: usize) -> BoxedStrategy<Vec<f64>> {
 
 pub fn case_strategy(tier: Tier) -> impl Strategy<Value = Case> {
     let max_n = tier.pick(80usize, 80usize);
-    (1usize..=8)
+    // p 1..=8 as designed; p 10..=16 is added (1 case in 5) because it is the only place where an embedding
+    // size >= 2 satisfies 5k <= p, i.e. where LOBPCG runs inside its own domain of validity
+    prop_oneof![4 => 1usize..=8, 1 => 10usize..=16]
         .prop_flat_map(move |p| {
+            let k = if p >= 10 {
+                prop_oneof![1 => Just(1usize), 1 => Just(p), 2 => 1usize..=p, 4 => 2usize..=p / 5].boxed()
+            } else {
+                // embedding size: k = 1, k = p and the middle all get weight
+                prop_oneof![1 => Just(1usize), 1 => Just(p), 3 => 1usize..=p].boxed()
+            };
             (
                 Just(p),
                 (p + 1).max(5)..=max_n,
-                // embedding size: k = 1, k = p and the middle all get weight
-                prop_oneof![1 => Just(1usize), 1 => Just(p), 3 => 1usize..=p],
+                k,
                 any::<bool>(),
                 shape_strategy(p),
                 offsets_strategy(p),
